@@ -93,8 +93,10 @@ def generate(rng: random.Random, tier: str, seed: int) -> dict:
         c = {"kind": kind, "trace_mode": rng.choice(["file", "dir"]), "flags": []}
         if kind == "flag_no_exec":
             c["flags"] = rng.sample(FLAGS, rng.randint(1, 2))
+            c["with_set"] = rng.random() < 0.4
         elif kind == "invalid_config":
-            c["how"] = rng.choice(["unknown_processor", "unknown_param", "type_gate", "probe_no_key", "deleted_then_required"])
+            c["how"] = rng.choice(["unknown_processor", "unknown_param", "type_gate", "probe_no_key", "deleted_then_required",
+                                   "external_deleted_then_required", "external_renamed_then_required"])
             c["at"] = rng.randrange(n)
             if rng.random() < 0.3:
                 c["flags"] = [rng.choice(["--dry-run", "--run-space-dry-run"])]
@@ -104,12 +106,13 @@ def generate(rng: random.Random, tier: str, seed: int) -> dict:
             c["why"] = req[k]
             if rng.random() < 0.25:
                 c["flags"] = ["--dry-run"]
+            c["with_run_space"] = rng.random() < 0.4      # other keys come from a run space with >= 2 runs
         elif kind == "runspace_supplied":
             c["seed"] = rng.getrandbits(32)
         elif kind == "runspace_malformed":
             c["how"] = rng.choice(["unequal_lengths", "duplicate_keys", "bad_mode", "bad_combine", "zip_blocks_unequal"])
         elif kind == "runspace_over_cap":
-            c["how"] = rng.choice(["block_max_runs", "cli_max_runs"])
+            c["how"] = rng.choice(["block_max_runs", "cli_max_runs", "block_max_runs_0", "cli_max_runs_0", "cli_max_runs_product_minus_1"])
         elif kind == "missing_file":
             c["how"] = rng.choice(["pipeline", "run_space_source", "run_space_file"])
         elif kind == "usage_error":
@@ -163,6 +166,15 @@ def _mutate_invalid(nodes: list[dict], how: str, at: int, truth: list[dict]) -> 
             return None
         nodes[cands[at % len(cands)]].pop("context_key", None)
         return nodes
+    if how in ("external_deleted_then_required", "external_renamed_then_required"):
+        # the key `offset` is supplied from outside (--context), removed by a context processor, then needed again
+        cands = [i for i in range(1, len(truth) + 1) if truth[i - 1]["out"] == "float"]
+        if not cands or any("offset" in (t["creates"] + t["removes"]) for t in truth):
+            return None
+        i = cands[at % len(cands)]
+        killer = {"processor": "delete:offset"} if how.startswith("external_deleted") else {"processor": "rename:offset:offset_moved"}
+        nodes[i:i] = [killer, {"processor": "SvProbeParam", "context_key": "edr_out"}]
+        return nodes
     if how == "deleted_then_required":
         cands = [i for i in range(1, len(truth) + 1) if truth[i - 1]["out"] == "float"]
         if not cands:
@@ -195,8 +207,9 @@ def run_case(sc: dict, c: dict, w, stats: dict, idx: int) -> list[dict]:
         expect.update(exec=True, code=0)
     elif kind == "flag_no_exec":
         expect.update(exec=False, code=0)
-        if "--run-space-dry-run" in c["flags"] and "--validate" not in c["flags"]:
-            pass
+        if c.get("with_set"):
+            argv += ["--set", "trace.options.detail=all"]
+            label = "flag_no_exec+set"
     elif kind == "invalid_config":
         m = _mutate_invalid(nodes, c["how"], c["at"], base["truth"])
         if m is None:
@@ -204,12 +217,18 @@ def run_case(sc: dict, c: dict, w, stats: dict, idx: int) -> list[dict]:
         nodes = m
         expect.update(exec=False, code=3)
         label = f"invalid_config:{c['how']}"
+        if c["how"].startswith("external_"):
+            ctx = dict(ctx)
+            ctx.setdefault("offset", 1.5)
     elif kind == "missing_key":
         skip_ctx = {c["key"]}
         expect.update(exec=False, code=3)
         label = f"missing_key:{'produced_only_later' if c['why'] == 'later' else 'never_produced'}"
         stats[f"probe.case.missing_key_{'produced_later' if c['why'] == 'later' else 'never_produced'}"] = stats.get(
             f"probe.case.missing_key_{'produced_later' if c['why'] == 'later' else 'never_produced'}", 0) + 1
+        if c.get("with_run_space"):
+            run_space = {"blocks": [{"mode": "by_position", "context": {"rs_other": [1.0, 2.0, 3.0]}}]}
+            label += "+run_space"
     elif kind == "runspace_supplied":
         rng = random.Random(c["seed"])
         keys = sorted(ctx)
@@ -238,8 +257,15 @@ def run_case(sc: dict, c: dict, w, stats: dict, idx: int) -> list[dict]:
         run_space = {"blocks": [{"mode": "combinatorial", "context": {"rs_a": [1.0, 2.0], "rs_b": [1.0, 2.0]}}]}
         if c["how"] == "block_max_runs":
             run_space["max_runs"] = 3
+        elif c["how"] == "block_max_runs_0":
+            run_space["max_runs"] = 0
+        elif c["how"] == "cli_max_runs_0":
+            argv += ["--run-space-max-runs", "0"]
+        elif c["how"] == "cli_max_runs_product_minus_1":
+            argv += ["--run-space-max-runs", "3"]
         else:
             argv += ["--run-space-max-runs", "2"]
+        label = f"runspace_over_cap:{c['how']}"
         expect.update(exec=False, code=3)
     elif kind == "missing_file":
         if c["how"] == "pipeline":
